@@ -78,6 +78,10 @@ impl Story {
         if !self.async_continue_active {
             self.async_continue_active = is_async_time_limited;
             if !self.can_continue() {
+                // Refused: undo the bookkeeping done above so that the story is left
+                // exactly as it was.
+                self.async_continue_active = false;
+                self.recursive_continue_count -= 1;
                 return Err(StoryError::InvalidStoryState(
                     "Can't continue - should check can_continue before calling Continue".to_owned(),
                 ));
